@@ -95,6 +95,27 @@ def invariant(obj, cls, names, types, label, rec, case):
             rec.violation('iter-values', 'iterating %s pairs %s with %r, the '
                           'attribute is %r' % (label, n, v2, v), case)
             return False
+    # "paired with the CURRENT attribute values": an iterator obtained
+    # before an attribute changes yields the value the attribute has when
+    # the pair is produced (read: at the moment of iteration, as the pinned
+    # tree's generator does), not a snapshot taken earlier
+    if len(names) >= 2:
+        it2 = call(iter, obj)
+        if it2.ok:
+            first = call(next, it2.value)
+            last = names[-1]
+            old = getattr(obj, last)
+            marker = ('changed-while-iterating',)
+            setattr(obj, last, marker)
+            rest = call(list, it2.value)
+            setattr(obj, last, old)
+            if rest.ok and rest.value and rest.value[-1][0] == last and \
+                    rest.value[-1][1] is not marker:
+                rec.violation('iter-stale-values',
+                              'an iterator over %s obtained before %s was '
+                              'assigned yields the old value %r'
+                              % (label, last, rest.value[-1][1]), case)
+                return False
     d = call(dict, obj)
     if not d.ok or list(d.value.keys()) != list(names) or \
             any(d.value[n] is not v for n, v in cur):
@@ -123,7 +144,11 @@ def invariant(obj, cls, names, types, label, rec, case):
                                                        else 'x'), 'marshal',
                   '__slots__', '__annotations__', '__class__', '__dict__',
                   '__doc__', 'frame_id', 'validate', 'amqp_type', 'flags',
-                  'synchronous', 'valid_responses', '__module__'):
+                  'synchronous', 'valid_responses', '__module__') + tuple(
+                      n.replace('_', '-') for n in names if '_' in n) + tuple(
+                      n.rstrip('_') for n in names if n.endswith('_')) + (
+                      'delivery-tag', 'no-ack', 'global', 'type',
+                      'message-count', 'Ticket', 'QUEUE'):
         if bogus in names:
             continue
         c = call(lambda: bogus in obj)
